@@ -82,6 +82,21 @@ def gen_alts(rng, vs: List[str], k: int, mode: str) -> List[Alt]:
     return alts
 
 
+def fine_alts(rng, vs: List[str], k: int) -> List[Alt]:
+    """Disjoint narrow boxes around 100 or 1000 on the first variable: they differ only beyond the fourth significant
+    digit (so they print alike) but are further apart than the tolerance of the numerical reading."""
+    base, unit = rng.choice([(100.0, 1 / 128), (1000.0, 1 / 4), (-100.0, 1 / 128)])
+    x0 = base + unit * rng.randint(0, 3)
+    alts: List[Alt] = []
+    rest_lo = [float(rng.randint(-3, 0)) for _ in vs[1:]]
+    rest_hi = [l + float(rng.randint(1, 3)) for l in rest_lo]
+    for _ in range(k):
+        w = unit * rng.choice([1, 2])
+        alts.append(box_alt(vs, [x0] + rest_lo, [x0 + w] + rest_hi))
+        x0 = x0 + w + unit * rng.choice([2, 4])
+    return alts
+
+
 def to_strings(a: Alt) -> List[str]:
     out = []
     for t in a:
@@ -284,6 +299,16 @@ def gen_case(rng) -> Dict[str, Any]:
     def alts_for(vars_, k, mode):
         return gen_alts(rng, vars_, k, mode)
 
+    if rng.random() < 0.12:
+        # alternatives that print alike: the merge must keep every one of them
+        a1 = fine_alts(rng, ins, rng.randint(2, 3))
+        lo = min(-t["k"] for a in a1 for t in a if t["c"].get(ins[0]) == -1.0) - 1.0
+        hi = max(t["k"] for a in a1 for t in a if t["c"].get(ins[0]) == 1.0) + 1.0
+        a2 = [box_alt([ins[0]], [lo], [hi])] if rng.random() < 0.6 else [[dict(c=dict(t["c"]), k=t["k"]) for t in a]
+                                                                         for a in a1]
+        return {"kind": "merge", "in1": ins, "out1": outs, "in2": list(ins), "out2": out2, "a1": a1, "a2": a2,
+                "g1": alts_for(outs, rng.randint(1, 2), "mixed"), "g2": alts_for(out2, rng.randint(1, 2), "mixed"),
+                "family": "fine"}
     case = {"kind": "merge", "in1": ins, "out1": outs, "in2": in2, "out2": out2,
             "a1": alts_for(ins, rng.randint(1, 3), "disjoint"), "a2": alts_for(in2[:len(ins)], rng.randint(1, 3),
                                                                               "disjoint"),
